@@ -192,7 +192,9 @@ func (a *v17Abaco) ProcessSegments(b *dataBlock) error {
 	return err
 }
 
-func v17AbacoPipeline(x *vexp.X, sc *v17Scenario) (*vhook.Sched, func()) {
+// v17NewAbaco builds a real AbacoSource fed by a scripted packet producer (two groups, one lagging, one lost
+// packet) and returns it with the clock thread that stands in for the reader's ticker.
+func v17NewAbaco() (*v17Abaco, func(started chan struct{}) func()) {
 	l := &v03Layout{name: "c17", groups: []v03Group{{0, 1}, {1, 2}}, frames: 2}
 	as, _ := NewAbacoSource()
 	prod := &v03Producer{done: make(chan struct{})}
@@ -208,18 +210,8 @@ func v17AbacoPipeline(x *vexp.X, sc *v17Scenario) (*vhook.Sched, func()) {
 	as.unwrapOpts = AbacoUnwrapOptions{}
 	v17Ticks = make(chan time.Time)
 	src := &v17Abaco{AbacoSource: as, done: make(chan struct{}, 16)}
-	queued := make(chan func())
-	started := make(chan struct{})
-	s := vhook.Run(x, vhook.Options{MaxSteps: 1500, Names: []string{"control", "clock"}, DelayBound: true},
-		func() {
-			if err := Start(src, queued, 3, 6); err != nil {
-				panic("harness: Abaco Start failed: " + err.Error())
-			}
-			close(started)
-			<-src.done // at least one block has been processed
-			src.Stop()
-		},
-		func() {
+	clock := func(started chan struct{}) func() {
+		return func() {
 			<-started
 			for i := 0; i < 4; i++ {
 				vhook.PSC(920, []interface{}{v17Ticks, src.abortSelf}, []bool{true, false}, false)
@@ -231,14 +223,34 @@ func v17AbacoPipeline(x *vexp.X, sc *v17Scenario) (*vhook.Sched, func()) {
 					return
 				}
 			}
-		})
-	return s, func() {
-		if as.numberWrittenTicker != nil {
-			as.numberWrittenTicker.Stop()
-			as.writingState.externalTriggerTicker.Stop()
-			as.writingState.dataDropTicker.Stop()
 		}
 	}
+	return src, clock
+}
+
+func (a *v17Abaco) stopTickers() {
+	if a.numberWrittenTicker != nil {
+		a.numberWrittenTicker.Stop()
+		a.writingState.externalTriggerTicker.Stop()
+		a.writingState.dataDropTicker.Stop()
+	}
+}
+
+func v17AbacoPipeline(x *vexp.X, sc *v17Scenario) (*vhook.Sched, func()) {
+	src, clock := v17NewAbaco()
+	queued := make(chan func())
+	started := make(chan struct{})
+	s := vhook.Run(x, vhook.Options{MaxSteps: 1500, Names: []string{"control", "clock"}, DelayBound: true},
+		func() {
+			if err := Start(src, queued, 3, 6); err != nil {
+				panic("harness: Abaco Start failed: " + err.Error())
+			}
+			close(started)
+			<-src.done // at least one block has been processed
+			src.Stop()
+		},
+		clock(started))
+	return s, src.stopTickers
 }
 
 func v17Run(x *vexp.X, sc *v17Scenario) vexp.Result {
